@@ -36,9 +36,11 @@ KeysCfg ==
                                      \cup (IF SemiB > 0 THEN {"KEY_F3", "KEY_F4"} ELSE {}))
                  @@ [KEY_ESC |-> "panic", KEY_F9 |-> "cc_learning", KEY_F10 |-> "multinote"],
      !.maps = << [name |-> "M1", axes |-> <<>>,
-                  keys |-> [KEY_A |-> [n |-> 60, o |-> 0], KEY_S |-> [n |-> 60, o |-> 0], KEY_D |-> [n |-> 48, o |-> 1]]],
+                  keys |-> [KEY_A |-> [n |-> 60, o |-> 0], KEY_S |-> [n |-> 60, o |-> 0], KEY_D |-> [n |-> 48, o |-> 1],
+                            \* an action key that a mapping also binds to a note: it stays an action key
+                            KEY_F2 |-> [n |-> 61, o |-> 0]]],
                  [name |-> "M2", axes |-> <<>>,
-                  keys |-> [KEY_A |-> [n |-> 72, o |-> 0], KEY_D |-> [n |-> 60, o |-> 15]]] >>]
+                  keys |-> [KEY_A |-> [n |-> 72, o |-> 0], KEY_D |-> [n |-> 60, o |-> 15], KEY_ESC |-> [n |-> 50, o |-> 0]]] >>]
 
 CollideCfg ==
   [BaseCfg EXCEPT
